@@ -20,10 +20,10 @@ def sh(cmd, **kw):
     return subprocess.run(cmd, capture_output=True, text=True, **kw)
 
 
-def do_import(outdir, pid):
+def do_import(outdir, pid, tag='s'):
     for diff in sorted(glob.glob(os.path.join(outdir, 'mut*.diff'))):
         n = os.path.basename(diff)[3:-5]
-        d = os.path.join(SEEDED, '%s-s%s' % (pid, n))
+        d = os.path.join(SEEDED, '%s-%s%s' % (pid, tag, n))
         os.makedirs(d, exist_ok=True)
         shutil.copy(diff, os.path.join(d, 'patch.diff'))
         demo = os.path.join(outdir, 'demo%s.py' % n)
@@ -35,7 +35,7 @@ def do_import(outdir, pid):
         notes = os.path.join(outdir, 'notes%s.md' % n)
         meta_p = os.path.join(d, 'meta.json')
         meta = json.load(open(meta_p)) if os.path.exists(meta_p) else {}
-        meta.update({'id': '%s-s%s' % (pid, n), 'property': pid, 'author': 'independent sub-agent (property text only)',
+        meta.update({'id': '%s-%s%s' % (pid, tag, n), 'property': pid, 'author': 'independent sub-agent (property text only)',
                      'needs_to_manifest': open(notes).read() if os.path.exists(notes) else ''})
         meta['demo_file'] = os.path.basename(demo)
         meta.setdefault('props', [pid])
@@ -105,7 +105,7 @@ def main():
     ap.add_argument('--skip-tests', action='store_true')
     a = ap.parse_args()
     if a.cmd == 'import':
-        do_import(a.args[0], a.args[1])
+        do_import(a.args[0], a.args[1], a.args[2] if len(a.args) > 2 else 's')
         return
     dirs = sorted(glob.glob(os.path.join(SEEDED, '*')))
     if a.args:
